@@ -502,3 +502,9 @@ PROPS["C04"]["units"].append(dict(template="units/targets.rs", slice=["FileLocat
 PROPS["C04"]["clauses"]["FileLocation::parse (sync SRC DST arguments)"] = "Remote{host, path} ==> ARG == host ++ ':' ++ path cut at its FIRST colon, host longer than one byte (the code's drive-letter rule) and without '/' or '\\'; Local(p) ==> p is the whole argument, byte for byte, and no such cut exists"
 PROPS["C04"]["trusted"] = PROPS["C04"]["trusted"] + TARGET_TRUST
 PROPS["C04"]["not_decided"] = [x for x in PROPS["C04"]["not_decided"] if "host:path parsing in main.rs" not in x]
+
+
+# ---- C06: the conflict-copy suffix (short_hex is a private fn of bidir.rs: text extracted mechanically for Kani) ----
+PROPS["C06"]["kani"] = [dict(harness="c06_short_hex_is_hex12", repo_fn="src/bin/copia/bidir.rs short_hex", tier="thorough", timeout=3000,
+    desc="forall 32-byte digests: short_hex(h) is exactly 12 bytes, the lower-case hex digits of h[0..6] in order, leading zeros kept (complete: full-domain symbolic digest, the 6 iterations unwound with unwinding assertions; ~10 min of CBMC, hence thorough tier only). The function text is copied byte for byte from the tree on every run (kani/extracted.tmpl.rs), because a private function of a binary module cannot be reached through #[path]")]
+PROPS["C06"]["clauses"]["short_hex (Kani, thorough tier)"] = "the <hex12> of `<path>.conflict-<host>-<hex12>` is the first 12 lower-case hex digits of the losing version's BLAKE3, for every digest"
